@@ -54,7 +54,7 @@ def _correspondence_once(ctx, rep=0):
     oracles.direct_on_extras(ctx, 'C01', oracles.jacobian_search)
 
 
-def spline_boxes(ctx, gen):
+def spline_boxes(ctx, gen, inverse=False, prop='C01'):
     """exported spline functions with non-square boxes: outputs and log-dets (this is where the box term lives)"""
     reqs, metas = [], []
     boxes = [(-1.5, 2.0, 0.25, 4.0), (0.0, 1.0, 0.0, 2.0)] if ctx.quick() else [(-1.5, 2.0, 0.25, 4.0), (0.0, 1.0, 0.0, 2.0), (3.0, 3.5, -7.0, -2.0), (-100., 100., -1e-2, 1e-2)]
@@ -64,15 +64,16 @@ def spline_boxes(ctx, gen):
                 for bi, box in enumerate(boxes):
                     n = 12
                     params = S.make_params(fam, n, K, False, regime, torch.float64, gen)
-                    x = box[0] + (box[1] - box[0]) * torch.rand(n, dtype=torch.float64, generator=gen)
-                    x[0] = box[0]; x[1] = box[1]
+                    lo_, hi_ = (box[2], box[3]) if inverse else (box[0], box[1])
+                    x = lo_ + (hi_ - lo_) * torch.rand(n, dtype=torch.float64, generator=gen)
+                    x[0] = lo_; x[1] = hi_
                     extra = None
                     if fam != 'lin' and bi == 1:
                         extra = {'min_bin_width': 0.02, 'min_bin_height': 0.05}
                         if fam == 'rq':
                             extra['min_derivative'] = 0.03
-                    kind, y, ld = S.impl_call(fam, x, params, False, False, box, None, extra=extra)
-                    reqs.append(S.model_req(fam, x, params, False, False, box, None, cfg=extra))
+                    kind, y, ld = S.impl_call(fam, x, params, inverse, False, box, None, extra=extra)
+                    reqs.append(S.model_req(fam, x, params, inverse, False, box, None, cfg=extra))
                     metas.append((fam, K, regime, box, x, kind, y, ld))
     for meta, resp in zip(metas, leandriver.call(reqs)):
         fam, K, regime, box, x, kind, y, ld = meta
@@ -80,15 +81,16 @@ def spline_boxes(ctx, gen):
         case = {'fn': fam + '_spline', 'K': K, 'regime': regime, 'box': box}
         if kind != 'ok':
             if not any(merr):
-                ctx.disagree('C01/spline-box', case, kind, 'ok', 'implementation raised')
+                ctx.disagree(prop + '/spline-box', case, kind, 'ok', 'implementation raised')
             ctx.case(n=len(my), branch='splinebox/error')
             continue
         for i in range(len(my)):
-            ok = (not merr[i]) and tcorr.close(y[i].item(), my[i], 1e-9, 1e-9) and \
+            ot = 2e-6 if (fam == 'cubic' and inverse) else 1e-9
+            ok = (not merr[i]) and (tcorr.close(y[i].item(), my[i], ot + 1e-15 * math.exp(min(60, abs(mld[i]))), ot) or any(tcorr.close(y[i].item(), a_, ot, ot) for a_ in (alts[i] if i < len(alts) else []))) and \
                 tcorr.close(ld[i].item(), mld[i], 1e-8 + 1e-15 * math.exp(min(60, abs(mld[i]))), 1e-8)
             ctx.case(key=('box', fam, K, regime, box, i < 2), branch='splinebox/%s' % fam, nontrivial=True)
             if not ok:
-                ctx.disagree('C01/spline-box', dict(case, x=x[i].item(), x_bits=bits.f64_bits(x[i].item())),
+                ctx.disagree(prop + '/spline-box', dict(case, x=x[i].item(), x_bits=bits.f64_bits(x[i].item())),
                              {'out': y[i].item(), 'ld': ld[i].item()}, {'out': my[i], 'ld': mld[i], 'err': merr[i]}, 'spline with non-default box differs')
 
 
